@@ -1744,6 +1744,52 @@ pub fn run(ctx: &mut Ctx, eng: &mut dyn Engine) {
         }
     }
 
+    // ---- 20b. STALE TRANSFER LENGTH WITH THE SAME PARTITION (seeded change C07-9: attach_fdt no longer compares the transfer length,
+    //            "the partition comparison covers it"): a stale datagram of the TOI with EXT_FTI announcing L' != L where
+    //            ceil(L'/E) = ceil(L/E) (same symbol count, same partition tuple) - L = 150, E = 16: 145..160 - before the FDT (then the
+    //            FDT's L is the authority and the clean genuine transfer must complete byte-exact), and the reverse order (FDT first,
+    //            then the stale packet, which must change nothing)
+    for tl2 in [149u64, 151, 145, 159, 160] {
+        for inband in [true, false] {
+            for fdt_first in [false, true] {
+                let oti = scheme_oti(0, 16, 4, 0, inband);
+                let spec = ObjSpec { content: content(&mut rng, 150), cenc: Cenc::Null, inband_cenc: false, md5: tl2 % 2 == 0, oti: None, transfers: 1 };
+                let sess = match make_session(&oti, &[spec], 1, 1) {
+                    Some(s) => s,
+                    None => continue,
+                };
+                let o = sess.objs[0].clone();
+                let is_obj = |raw: &Vec<u8>| alc::parse_alc_pkt(raw).map(|p| p.lct.toi == o.toi).unwrap_or(false);
+                let first_obj = match sess.pkts.iter().find(|raw| is_obj(raw)) {
+                    Some(r) => r.clone(),
+                    None => continue,
+                };
+                let forged = match rebuild(&first_obj, &o, &Edit { tl: Some(tl2), force_fti: true, ..Default::default() }) {
+                    Some(f) => f,
+                    None => continue,
+                };
+                let mut h: Vec<Option<Vec<u8>>> = Vec::new();
+                if fdt_first {
+                    h.extend(sess.pkts.iter().filter(|raw| !is_obj(raw)).cloned().map(Some));
+                    h.push(Some(forged));
+                    h.extend(sess.pkts.iter().filter(|raw| is_obj(raw)).cloned().map(Some));
+                } else {
+                    h.push(Some(forged));
+                    h.extend(sess.pkts.iter().filter(|raw| !is_obj(raw)).cloned().map(Some));
+                    h.extend(sess.pkts.iter().filter(|raw| is_obj(raw)).cloned().map(Some));
+                }
+                h.push(None);
+                r.ctx.count("fti-stale-length-same-partition");
+                let obs = r.case("fti-stale-length-same-partition", &dflt, &sess, &[], &h, false);
+                // a clean genuine transfer after the FDT must be delivered (with in-band FTI on every genuine packet a stale L' that
+                // arrives first and is never contradicted by an FDT-borne OTI check is outside this demand: only count it)
+                if !obs.iter().any(|x| x.contains(":C") || x.contains(",C")) {
+                    r.ctx.count("fti-stale-length-same-partition:not-completed");
+                }
+            }
+        }
+    }
+
     // ---- 15. a TOI reused for DIFFERENT content while the older FDT instance that listed it is still retained
     //          (FDT-only OTI, no MD5, receive_once off): the new object must take the NEWEST instance listing the TOI
     for i in 0..(if thorough { 40 } else { 10 }) {
